@@ -83,3 +83,14 @@ Section Exporter.
   Definition export (is_client : bool) (v : view) (secret label : list N) (n : nat) : list N :=
     if w_version v =? v13 then export13 v secret label n else export12 is_client v secret label n.
 End Exporter.
+
+(* ---- as coded: State.ExportKeyingMaterial looks the negotiated suite up again with ciphersuite.ForID(id, nil) -
+   the built-in table only, the suites of WithCustomCipherSuites are not consulted - and fails ("cipher suite not
+   set") when the lookup does.  None = that failure. *)
+Section ExporterAsCoded.
+  Variable prf : N -> list N -> list N -> nat -> list N.
+  Variable hash_of_suite : N -> N.
+
+  Definition export_as_coded (is_client : bool) (v : view) (secret label : list N) (n : nat) : option (list N) :=
+    if known_suite (w_suite v) then Some (export prf hash_of_suite is_client v secret label n) else None.
+End ExporterAsCoded.
